@@ -12,7 +12,7 @@ ID = "C07"
 TITLE = "Gradients through operators equal gradients through the dense computation"
 TECHNIQUE = "exhaustive enumeration of (operator term x batch x every non-empty subset of floating leaves requiring grad x differentiable entry point x memory_efficient x max_cholesky_size) on the real backward code; each gradient is compared with torch.autograd through the dense denotation assembled from the same leaves"
 RULE = (
-    "every catalogue term with floating leaves and wrapper-over-term nestings x batch {(),(2,)} x all 2^p - 1 subsets of leaves (p <= 4, larger p: singletons + all) x "
+    "every catalogue term with floating leaves and wrapper-over-term nestings x batch {(),(2,); depth-1 terms also (3,2)} x all 2^p - 1 subsets of leaves (p <= 4, larger p: singletons + all) x "
     "entry points {matmul, rmatmul, to_dense, diagonal, getitem, batch sum, solve, inv_quad, logdet, inv_quad_logdet, root_decomposition, pivoted_cholesky, "
     "sqrt_inv_matmul, _bilinear_derivative} x memory_efficient {on, off} x max_cholesky_size {0 (CG solves, cg_tolerance 1e-10), default}; gradients w.r.t. the "
     "leaves and the right-hand side; symmetrised comparison for symmetric-only functions; non-trivial = reference gradient non-zero; distinct = (case, entry, subset)"
@@ -50,11 +50,15 @@ def cases(tier, seed):
                 if not depth1 and cfg.get("max_cholesky_size") == 0 and tier == "quick":
                     continue
                 out.append({"name": name, "term": term, "batch": b, "cfg": cfg})
+        if depth1:
+            # two batch dimensions of distinct sizes (gradients of operands that broadcast over only some of them)
+            for cfg in ({},) if tier == "quick" else ({}, {"memory_efficient": True}):
+                out.append({"name": name, "term": term, "batch": [3, 2], "cfg": cfg})
     return out
 
 
 def bounds(tier):
-    return {"n": 3, "terms": len(terms(tier)), "batches": "(),(2,)", "subsets": "all non-empty subsets for <= 4 floating leaves, singletons + full set otherwise",
+    return {"n": 3, "terms": len(terms(tier)), "batches": "(),(2,); depth-1 terms also (3,2)", "subsets": "all non-empty subsets for <= 4 floating leaves, singletons + full set otherwise",
             "settings": ["default", "memory_efficient", "max_cholesky_size=0 with cg_tolerance 1e-10"]}
 
 
